@@ -33,7 +33,10 @@ PROPERTY = "C09"
 LEVEL = "exploration"
 NATIVE = ["mdtraj.geometry._geometry", "mdtraj._rmsd", "mdtraj.geometry.drid", "mdtraj.geometry.neighbors", "mdtraj.geometry.neighborlist"]
 RULE = ("case = (structure source, transformation class, magnitude, seed); every case recomputes ~14 observables on the "
-        "transformed copy; non-trivial = at least one observable comparison decided; distinct = distinct descriptors")
+        "transformed copy; non-trivial = at least one observable comparison decided; distinct = distinct descriptors; "
+        "a second stream (w=1) uses multi-frame trajectories with a different rigid motion (random / exact axis / tiny rotation) "
+        "or different lattice shifts and cells in every frame, adds the observables the first stream leaves out, and passes "
+        "index tables in every container")
 WORKERS = {"quick": 8, "thorough": 16}
 BUDGET = {"quick": 100, "thorough": 1500}
 FLOORS = {"quick": {"rigid.distances": 1500, "rigid.angles": 300, "rigid.rmsd": 60, "rigid.sasa": 300, "rigid.hbonds": 10,
@@ -446,3 +449,489 @@ def lattice(case, ctx, t0, rng):
         c1 = md.compute_contacts(tb, "all", scheme="ca", periodic=True)[0]
         _cmp(ctx, "lattice.contacts", f"{tag}:compute_contacts(ca,periodic)", c0, c1, 4 * tau, "periodic CA contacts")
         _hbonds(ctx, ta, tb, x0, tau, "lattice", periodic=True)
+
+
+# =====================================================================================================================
+# Widening pass (appended stream; the 700 / 9000 cases above keep their numbers and seeds).  Same relations, same
+# tolerance derivations (tau per frame), what is new is the INPUT CLASS:
+#   rigid_multi    trajectories of 1..9 frames in which EVERY FRAME gets its own rotation and translation (one frame
+#                  stays unmoved): an observable that takes anything from another frame (a centre, a reference, a
+#                  buffer) is no longer invariant.  Rotations: random, exact axis permutations (90/180 degrees: matrix
+#                  entries exactly 0 and +-1), tiny (1e-4 rad).  Observables added to the list of the first stream:
+#                  neighbour list without cell, wernet_nilsson, contacts (closest, closest-heavy, sidechain-heavy),
+#                  mass-weighted rg, principal moments / asphericity / acylindricity / relative shape anisotropy,
+#                  inertia tensor eigenvalues, rmsd with atom_indices / to another frame of the same object /
+#                  parallel=False, DRID with the default atom set, SASA and DSSP frame by frame of one call.
+#   lattice_multi  periodic trajectories of 2..6 frames with per-frame cells (constant / all / one field / class change /
+#                  late / alternating), per-frame per-atom lattice shifts up to +-20 cells (all atoms, or only a few), a
+#                  whole-system translation; cell given as lengths+angles or as vectors; index tables in all containers.
+#                  Observables: distances, displacements, angles, dihedrals, neighbours of every frame (default and
+#                  explicit descending haystack), neighbour list of every frame, contacts (ca, closest-heavy),
+#                  baker_hubbard, wernet_nilsson, find_closest_contact, compute_distances_t (constant cell).
+WIDE_N = {"quick": 64, "thorough": 1800}
+ROTS = ["random", "random", "axis", "tiny", "none"]
+FLOORS["quick"].update({"rigidm.distances": 500, "rigidm.sasa": 1000, "rigidm.rmsd": 30, "latticem.distances": 500, "latticem.neighborlist": 25})
+
+
+def _gen_wide(tier, seed):
+    n0 = 700 if tier == "quick" else 9000
+    for k in range(WIDE_N[tier]):
+        i = n0 + k
+        rng = common.rng_for("C09w", seed, i)
+        kind = "rigid_multi" if rng.random() < 0.5 else "lattice_multi"
+        yield dict(i=i, seed=common.case_seed(seed, "C09", i), kind=kind, w=1,
+                   source=str(rng.choice(["protein", "protein", "lattice", "cluster"])),
+                   n_frames=int(rng.choice([1, 2, 3, 3, 5, 9])) if kind == "rigid_multi" else int(rng.choice([2, 3, 4, 6])),
+                   rot=str(rng.choice(ROTS)), mag=float(rng.choice([0.3, 3.0, 30.0, 300.0])),
+                   cell=common.CELL_KINDS[int(rng.integers(len(common.CELL_KINDS)))], pf=str(rng.choice(["const", "const"] + common.PF_MODES)),
+                   K=int(rng.choice([1, 1, 5, 20])), idx=str(rng.choice(common.INDEX_STYLES)), as_vectors=bool(rng.random() < 0.3))
+
+
+def gen_cases(tier, seed):  # noqa: F811
+    import itertools
+    return common.with_asan_slice(itertools.chain(_gen_cases(tier, seed), _gen_wide(tier, seed)), ASAN_EVERY[tier])
+
+
+def base_structure_multi(case, rng):
+    """nf frames of one system: consecutive models of the NMR ensemble (jittered), or a jittered cluster / lattice"""
+    import mdtraj as md
+    nf = case["n_frames"]
+    if case["source"] == "protein":
+        repo = os.environ.get("VERIF_REPO", "/repo")
+        t = md.load(os.path.join(repo, "tests/data/2EQQ.pdb"))
+        nf = min(nf, 5)
+        f0 = int(rng.integers(0, t.n_frames - nf + 1))
+        x = t.xyz[f0:f0 + nf].astype(np.float64) + rng.normal(scale=0.003, size=(nf,) + t.xyz.shape[1:])
+        x -= x.mean(axis=1, keepdims=True)
+        return md.Trajectory(x.astype(np.float32), t.topology)
+    one = base_structure(dict(case), rng)
+    x = one.xyz[0].astype(np.float64)[None] + rng.normal(scale=0.01, size=(nf,) + one.xyz.shape[1:])
+    return md.Trajectory(x.astype(np.float32), one.topology)
+
+
+def _rotation(rng, kind):
+    if kind == "none":
+        return np.eye(3)
+    if kind == "axis":  # proper rotations with entries exactly 0 / +-1
+        while True:
+            P = np.eye(3)[rng.permutation(3)] * rng.choice([-1.0, 1.0], 3)[:, None]
+            if np.linalg.det(P) > 0 and not np.array_equal(P, np.eye(3)):
+                return P
+    if kind == "tiny":
+        a = rng.normal(size=3)
+        a /= np.linalg.norm(a)
+        th = 1e-4
+        Kx = np.array([[0, -a[2], a[1]], [a[2], 0, -a[0]], [-a[1], a[0], 0]])
+        return np.eye(3) + np.sin(th) * Kx + (1 - np.cos(th)) * Kx @ Kx
+    return common.random_rotation(rng)
+
+
+def _pairsets(nl):
+    return {(i, int(j)) for i, a in enumerate(nl) for j in a}
+
+
+def rigid_multi(case, ctx, rng):
+    import mdtraj as md
+    t0 = base_structure_multi(case, rng)
+    nf, na = t0.n_frames, t0.n_atoms
+    x0 = t0.xyz.astype(np.float64)
+    still = int(rng.integers(nf))
+    Rs, Ts = [], []
+    for f in range(nf):
+        if f == still and nf > 1:
+            Rs.append(np.eye(3))
+            Ts.append(np.zeros(3))
+            continue
+        Rs.append(_rotation(rng, case["rot"]))
+        d = rng.normal(size=3)
+        Ts.append(d / np.linalg.norm(d) * case["mag"] * float(rng.choice([1.0, 1.0, 0.1, 0.0])))
+    Rs, Ts = np.array(Rs), np.array(Ts)
+    x1 = (np.einsum("fai,fji->faj", x0, Rs) + Ts[:, None, :]).astype(np.float32)
+    t1 = md.Trajectory(x1, t0.topology)
+    tau = np.array([tau_of(t0.xyz[f], x1[f]) for f in range(nf)])
+    T1, T2 = tau[:, None], tau
+    ctx.observe("wide.frames", nf)
+    ctx.observe("wide.rotation", case["rot"])
+    ctx.observe("translation_nm", case["mag"])
+    pairs, trip, quad = _indices(t0, rng)
+    tag = "rigid-multi"
+    st = case["idx"]
+    ctx.observe("wide.index_container", st)
+    _cmp(ctx, "rigidm.distances", f"{tag}:compute_distances", md.compute_distances(t0, common.index_arg(pairs, st), periodic=False),
+         md.compute_distances(t1, common.index_arg(pairs, st), periodic=False), 4 * T1, "distances before/after per-frame rigid motion")
+    cond = [_angle_conditioning(x0[f], trip) for f in range(nf)]
+    lmin, good = np.array([c[0] for c in cond]), np.array([c[1] for c in cond])
+    a0, a1 = md.compute_angles(t0, common.index_arg(trip, st), periodic=False), md.compute_angles(t1, common.index_arg(trip, st), periodic=False)
+    sin0 = np.maximum(np.sin(np.asarray(a0, np.float64)), 1e-3)
+    _cmp(ctx, "rigidm.angles", f"{tag}:compute_angles", a0, a1, 8 * T1 / lmin + 4 * EPS / sin0 + 1e-6, "angles before/after per-frame rigid motion", mask=good)
+    cq = [_dihedral_conditioning(x0[f], quad) for f in range(nf)]
+    lq, goodq = np.array([c[0] for c in cq]), np.array([c[1] for c in cq])
+    d0, d1 = md.compute_dihedrals(t0, common.index_arg(quad, st), periodic=False), md.compute_dihedrals(t1, common.index_arg(quad, st), periodic=False)
+    okq = (circ(d0, d1) <= 16 * T1 / lq + 1e-5) | ~goodq
+    if not okq.all():
+        f, j = np.argwhere(~okq)[0]
+        ctx.violation("rigidm.dihedrals", f"{tag}:compute_dihedrals", f"dihedral {d0[f, j]:.6f} vs {d1[f, j]:.6f} after per-frame rigid motion (frame {f})")
+    else:
+        ctx.ok("rigidm.dihedrals", int(goodq.sum()) or 1)
+    # rmsd: invariant under independent rigid motions of target frames and reference
+    ref0 = x0[0] + rng.normal(scale=0.05, size=x0[0].shape)
+    Rr = _rotation(rng, "random")
+    ref1 = (ref0 @ Rr.T + Ts[-1]).astype(np.float32)
+    taur = max(tau.max(), tau_of(ref0.astype(np.float32), ref1))
+    sub = np.sort(rng.choice(na, size=min(na, 20), replace=False))
+    for label, kw in (("all-atoms", {}), ("atom_indices", dict(atom_indices=sub)), ("parallel=False", dict(parallel=False))):
+        r0 = md.rmsd(md.Trajectory(t0.xyz.copy(), t0.topology), md.Trajectory(ref0[None].astype(np.float32), t0.topology), 0, **kw)
+        r1 = md.rmsd(md.Trajectory(x1.copy(), t0.topology), md.Trajectory(ref1[None], t0.topology), 0, **kw)
+        _cmp(ctx, "rigidm.rmsd", f"{tag}:rmsd({label})", r0, r1, 16 * taur + 1e-5, f"rmsd ({label}) to an independently moved reference")
+    k = int(rng.integers(nf))
+    ta, tb = md.Trajectory(t0.xyz.copy(), t0.topology), md.Trajectory(x1.copy(), t0.topology)
+    _cmp(ctx, "rigidm.rmsd", f"{tag}:rmsd(reference=self)", md.rmsd(ta, ta, k), md.rmsd(tb, tb, k), 16 * tau.max() + 1e-5, "rmsd to a frame of the same object")
+    _cmp(ctx, "rigidm.rg", f"{tag}:compute_rg", md.compute_rg(t0), md.compute_rg(t1), 4 * T2, "radius of gyration")
+    masses = rng.uniform(1.0, 32.0, na)
+    _cmp(ctx, "rigidm.rg", f"{tag}:compute_rg(masses)", md.compute_rg(t0, masses=masses), md.compute_rg(t1, masses=masses), 4 * T2, "mass-weighted radius of gyration")
+    Rint = np.abs(x0 - x0.mean(axis=1, keepdims=True)).max(axis=(1, 2))
+    etol = 3 * (2 * Rint * 4 * tau + (4 * tau) ** 2) + 1e-7
+    e0 = np.sort(np.linalg.eigvalsh(md.compute_gyration_tensor(t0)), axis=1)
+    e1 = np.sort(np.linalg.eigvalsh(md.compute_gyration_tensor(t1)), axis=1)
+    _cmp(ctx, "rigidm.gyration", f"{tag}:gyration-tensor-eigenvalues", e0, e1, etol[:, None], "gyration tensor eigenvalues")
+    _cmp(ctx, "rigidm.gyration", f"{tag}:principal_moments", np.sort(md.principal_moments(t0), axis=1), np.sort(md.principal_moments(t1), axis=1), etol[:, None], "principal moments")
+    _cmp(ctx, "rigidm.gyration", f"{tag}:asphericity", md.asphericity(t0), md.asphericity(t1), 2 * etol, "asphericity")
+    _cmp(ctx, "rigidm.gyration", f"{tag}:acylindricity", md.acylindricity(t0), md.acylindricity(t1), 2 * etol, "acylindricity")
+    S = e0.sum(axis=1)
+    _cmp(ctx, "rigidm.gyration", f"{tag}:relative_shape_anisotropy", md.relative_shape_antisotropy(t0), md.relative_shape_antisotropy(t1), 40 * etol / S, "relative shape anisotropy")
+    m_el = np.array([a.element.mass for a in t0.topology.atoms])
+    i0 = np.sort(np.linalg.eigvalsh(md.compute_inertia_tensor(t0)), axis=1)
+    i1 = np.sort(np.linalg.eigvalsh(md.compute_inertia_tensor(t1)), axis=1)
+    _cmp(ctx, "rigidm.inertia", f"{tag}:inertia-tensor-eigenvalues", i0, i1, (6 * m_el.sum() * (2 * Rint * 4 * tau + (4 * tau) ** 2) + 1e-6 * i0.max(axis=1))[:, None], "inertia tensor eigenvalues")
+    # DRID (explicit subset and default atom set), frame by frame tolerances
+    for label, ai in (("subset", sub), ("default", None)):
+        rows = sub if ai is not None else np.arange(na)
+        if ai is None and na > 80:
+            continue
+        dmin = np.empty(nf)
+        for f in range(nf):
+            D = np.linalg.norm(x0[f][rows][:, None] - x0[f][None], axis=-1)
+            D[D == 0] = np.inf
+            dmin[f] = D.min()
+        try:
+            g0 = md.compute_drid(t0, atom_indices=ai).reshape(nf, -1, 3)
+            g1 = md.compute_drid(t1, atom_indices=ai).reshape(nf, -1, 3)
+        except Exception as e:
+            ctx.skip("rigidm.drid", f"compute_drid raised {type(e).__name__}")
+            continue
+        dx = (4 * tau / dmin ** 2)[:, None]
+        xm = (1.0 / dmin)[:, None]
+        _cmp(ctx, "rigidm.drid", f"{tag}:drid({label}):mean", g0[..., 0], g1[..., 0], dx + 1e-6 * xm, "DRID mean")
+        _cmp(ctx, "rigidm.drid", f"{tag}:drid({label}):sigma^2", g0[..., 1] ** 2, g1[..., 1] ** 2, 4 * xm * dx + 1e-5 * xm ** 2, "DRID second moment")
+        _cmp(ctx, "rigidm.drid", f"{tag}:drid({label}):nu^3", g0[..., 2] ** 3, g1[..., 2] ** 3, 6 * xm ** 2 * dx + 1e-5 * xm ** 3, "DRID third moment")
+    # neighbours of every frame, neighbour list of every frame (no cell)
+    cutoff = float(rng.uniform(0.3, 0.6))
+    q = sub[:5]
+    hay = np.sort(rng.choice(na, size=max(1, na // 2), replace=False))[::-1].copy()
+    for hname, h in (("all atoms", None), ("explicit descending haystack", hay)):
+        n0 = md.compute_neighbors(t0, cutoff, common.index_arg(q, st), haystack_indices=None if h is None else common.index_arg(h, st), periodic=False)
+        n1 = md.compute_neighbors(t1, cutoff, common.index_arg(q, st), haystack_indices=None if h is None else common.index_arg(h, st), periodic=False)
+        for f in range(nf):
+            dq = np.linalg.norm(x0[f][:, None] - x0[f][q][None], axis=-1)
+            amb = {int(a) for a in range(na) if np.any(np.abs(dq[a] - cutoff) <= 4 * tau[f] + 1e-5)}
+            diff = (set(n0[f].tolist()) ^ set(n1[f].tolist())) - amb
+            if diff:
+                ctx.violation("rigidm.neighbors", f"{tag}:compute_neighbors", f"neighbour set ({hname}) of frame {f} changes under per-frame rigid motion for atoms {sorted(diff)[:6]} (cutoff {cutoff:.3f})")
+            else:
+                ctx.ok("rigidm.neighbors", na - len(amb))
+            if not amb and not np.array_equal(n0[f], n1[f]):
+                ctx.violation("rigidm.neighbors", f"{tag}:compute_neighbors:order", f"neighbours ({hname}) of frame {f} are reported in another order after the motion")
+    for f in range(nf):
+        try:
+            la, lb = md.compute_neighborlist(t0, cutoff, frame=f, periodic=False), md.compute_neighborlist(t1, cutoff, frame=f, periodic=False)
+        except Exception as e:
+            ctx.skip("rigidm.neighborlist", f"compute_neighborlist raised {type(e).__name__}")
+            break
+        D = np.linalg.norm(x0[f][:, None] - x0[f][None], axis=-1)
+        ambp = np.abs(D - cutoff) <= 4 * tau[f] + 1e-5
+        bad = [(i, j, float(D[i, j])) for (i, j) in _pairsets(la) ^ _pairsets(lb) if not ambp[i, j]]
+        if bad:
+            ctx.violation("rigidm.neighborlist", f"{tag}:compute_neighborlist(no cell)", f"neighbour list of frame {f} changes under rigid motion: {len(bad)} memberships, e.g. (i,j,d) {bad[:3]} (cutoff {cutoff:.3f})")
+        else:
+            ctx.ok("rigidm.neighborlist", na)
+    if case["source"] == "protein":
+        nres = t0.topology.n_residues
+        rp = np.array([p for p in rng.integers(0, nres, (80, 2)) if abs(p[0] - p[1]) >= 3][:40])
+        for scheme in ("ca", "closest", "closest-heavy", "sidechain-heavy"):
+            try:
+                c0 = md.compute_contacts(t0, rp, scheme=scheme, periodic=False)[0]
+                c1 = md.compute_contacts(t1, rp, scheme=scheme, periodic=False)[0]
+            except Exception as e:
+                ctx.skip("rigidm.contacts", f"compute_contacts({scheme}) raised {type(e).__name__}")
+                continue
+            _cmp(ctx, "rigidm.contacts", f"{tag}:compute_contacts({scheme})", c0, c1, 4 * T1, f"{scheme} contact distances")
+        _hbonds_multi(ctx, t0, t1, x0, tau, "rigidm", None, tag)
+        _dssp_multi(ctx, t0, t1, x0, tag)
+    _sasa_multi(ctx, t0, t1, x0, x1.astype(np.float64), tau, [not np.array_equal(R, np.eye(3)) for R in Rs], tag, rng)
+
+
+def _hb_geometry(x, d, h, a, Bf):
+    vha, vhd, vda, vdh = x[a] - x[h], x[d] - x[h], x[a] - x[d], x[h] - x[d]
+    if Bf is not None:
+        vha, vhd, vda, vdh = (geom.min_image(v, Bf)[0] for v in (vha, vhd, vda, vdh))
+    return vha, vhd, vda, vdh
+
+
+def _hbonds_multi(ctx, t0, t1, x0, tau, mon, B, tag):
+    """baker_hubbard(freq=0) over the whole trajectory and wernet_nilsson frame by frame; B None or (nf,3,3)"""
+    import mdtraj as md
+    periodic = B is not None
+    nf = t0.n_frames
+    try:
+        h0 = {tuple(int(v) for v in r) for r in md.baker_hubbard(t0, freq=0.0, periodic=periodic)}
+        h1 = {tuple(int(v) for v in r) for r in md.baker_hubbard(t1, freq=0.0, periodic=periodic)}
+        bad = []
+        for d, h, a in h0 ^ h1:
+            excused = False
+            for f in range(nf):
+                vha, vhd, _, _ = _hb_geometry(x0[f], d, h, a, None if B is None else B[f])
+                dist, ang = np.linalg.norm(vha), geom.angle_vec(vhd, vha)
+                l = min(np.linalg.norm(vha), np.linalg.norm(vhd))
+                if abs(dist - 0.25) <= 4 * tau[f] + 1e-5 or abs(ang - 2 * np.pi / 3) <= 8 * tau[f] / max(l, 1e-3) + 1e-5:
+                    excused = True
+            if not excused:
+                bad.append((d, h, a))
+        if bad:
+            ctx.violation(f"{mon}.hbonds", f"{tag}:baker_hubbard", f"hydrogen-bond set of the trajectory changes under the per-frame transformation: (D,H,A) {bad[:3]}")
+        else:
+            ctx.ok(f"{mon}.hbonds", max(len(h0), 1))
+    except Exception as e:
+        ctx.skip(f"{mon}.hbonds", f"baker_hubbard raised {type(e).__name__}")
+    try:
+        w0, w1 = md.wernet_nilsson(t0, periodic=periodic), md.wernet_nilsson(t1, periodic=periodic)
+    except Exception as e:
+        ctx.skip(f"{mon}.hbonds", f"wernet_nilsson raised {type(e).__name__}")
+        return
+    for f in range(nf):
+        s0 = {tuple(int(v) for v in r) for r in w0[f]}
+        s1 = {tuple(int(v) for v in r) for r in w1[f]}
+        bad = []
+        for d, h, a in s0 ^ s1:
+            _, _, vda, vdh = _hb_geometry(x0[f], d, h, a, None if B is None else B[f])
+            rda = np.linalg.norm(vda)
+            l = min(rda, np.linalg.norm(vdh))
+            deg = np.degrees(geom.angle_vec(vda, vdh))
+            ddeg = np.degrees(8 * tau[f] / max(l, 1e-3))
+            if abs(rda - (0.33 - 0.000044 * deg ** 2)) <= 4 * tau[f] + 2 * 0.000044 * (deg + ddeg) * ddeg + 1e-5:
+                continue
+            bad.append((d, h, a, float(rda), float(deg)))
+        if bad:
+            ctx.violation(f"{mon}.hbonds", f"{tag}:wernet_nilsson", f"wernet_nilsson bonds of frame {f} change under the transformation: (D,H,A,r_DA,delta) {bad[:3]}")
+        else:
+            ctx.ok(f"{mon}.hbonds", max(len(s0), 1))
+
+
+def _dssp_multi(ctx, t0, t1, x0, tag):
+    import mdtraj as md
+    s0, s1 = md.compute_dssp(t0, simplified=False), md.compute_dssp(t1, simplified=False)
+    k0 = k1 = None
+    ca = np.array([a.index for a in t0.topology.atoms if a.name == "CA"])
+    for f in range(t0.n_frames):
+        if np.array_equal(s0[f], s1[f]):
+            ctx.ok("rigidm.dssp", len(s0[f]))
+            continue
+        if k0 is None:
+            k0, k1 = md.kabsch_sander(t0), md.kabsch_sander(t1)
+        same_pattern = (k0[f] != 0).toarray().tolist() == (k1[f] != 0).toarray().tolist()
+        c = x0[f][ca]
+        kappa = np.degrees(geom.angle_vec(c[2:-2] - c[:-4], c[4:] - c[2:-2]))
+        if same_pattern and not bool(np.any(np.abs(kappa - 70.0) < 0.5)):
+            j = int(np.argmax(s0[f] != s1[f]))
+            ctx.violation("rigidm.dssp", f"{tag}:compute_dssp", f"DSSP codes of frame {f} change under the per-frame motion although the H-bond pattern is unchanged and no bend is near 70deg: residue {j} {s0[f][j]!r}->{s1[f][j]!r}")
+        else:
+            ctx.skip("rigidm.dssp", "an H-bond energy or bend angle sits at its threshold (pattern flipped legitimately)")
+
+
+def _sasa_multi(ctx, t0, t1, x0, x1, tau, rotated, tag, rng):
+    import mdtraj as md
+    from mdtraj.geometry.sasa import _ATOMIC_RADII
+    n = int([24, 60, 120][int(rng.integers(3))])
+    try:
+        s0 = md.shrake_rupley(t0, n_sphere_points=n).astype(np.float64)
+        s1 = md.shrake_rupley(t1, n_sphere_points=n).astype(np.float64)
+    except Exception as e:
+        ctx.skip("rigidm.sasa", f"shrake_rupley raised {type(e).__name__}")
+        return
+    Rr = np.array([_ATOMIC_RADII[a.element.symbol] for a in t0.topology.atoms]) + 0.14
+    P = golden_spiral(n)
+    ctx.observe("sasa_points", n)
+    for f in range(t0.n_frames):
+        bound = np.zeros(len(Rr))
+        for X in ((x0[f],) if not rotated[f] else (x0[f], x1[f])):
+            D = np.linalg.norm(X[:, None] - X[None], axis=-1)
+            for i in range(len(Rr)):
+                nb = np.where((D[i] < Rr[i] + Rr + 0.05) & (np.arange(len(Rr)) != i))[0]
+                if not len(nb):
+                    continue
+                pts = X[i] + Rr[i] * P
+                m = np.linalg.norm(pts[:, None] - X[nb][None], axis=-1) - Rr[nb][None]
+                band = (Rr[i] * np.sqrt(4 * np.pi / n)) if rotated[f] else (4 * tau[f] + 1e-5)
+                bound[i] += np.sum(np.abs(m).min(axis=1) <= band)
+        tol = (bound + 1) * (4 * np.pi * Rr ** 2 / n) + 1e-6
+        _cmp(ctx, "rigidm.sasa", f"{tag}:shrake_rupley:{'rotation' if rotated[f] else 'translation'}", s0[f], s1[f], tol, f"per-atom SASA of frame {f} before/after")
+
+
+def lattice_multi(case, ctx, rng):
+    import mdtraj as md
+    t0 = base_structure_multi(case, rng)
+    nf, na = t0.n_frames, t0.n_atoms
+    x0 = t0.xyz.astype(np.float64)
+    ext = float(np.abs(x0).max()) * 2
+    need = max(2 * ext + 0.5, 2.0)
+    cells = [common.random_cell(rng, case["cell"])] * nf if case["pf"] == "const" else common.perframe_cells(rng, case["cell"], nf, case["pf"])
+    wmin = min(common.cell_widths(common.cell_vectors64(l, a)).min() for l, a in cells)
+    s = max(1.0, need / wmin) * float(rng.uniform(1.0, 1.3))
+    L = np.array([c[0] * s for c in cells], dtype=np.float32)
+    A = np.array([c[1] for c in cells], dtype=np.float32)
+    ta = md.Trajectory(t0.xyz.copy(), t0.topology, unitcell_lengths=L, unitcell_angles=A)
+    if case["as_vectors"]:
+        ta.unitcell_vectors = ta.unitcell_vectors.astype(np.float64)
+    ctx.observe("wide.cell_given_as", "vectors" if case["as_vectors"] else "lengths+angles")
+    B = ta.unitcell_vectors.astype(np.float64)
+    orth = np.all(ta.unitcell_angles == 90.0, axis=1)
+    w = np.array([common.cell_widths(B[f]).min() for f in range(nf)])
+    K = case["K"]
+    sub = np.sort(rng.choice(na, size=min(na, 5), replace=False))
+    pattern = "all" if rng.random() < 0.6 else "few"
+    if pattern == "few":
+        ta.xyz = (ta.xyz.astype(np.float64) + (B.sum(axis=1) / 2)[:, None, :]).astype(np.float32)
+        x0 = ta.xyz.astype(np.float64)
+        n = np.zeros((nf, na, 3))
+        for f in range(nf):
+            movers = sub[: int(rng.integers(1, len(sub) + 1))]
+            n[f, movers] = rng.integers(-K, K + 1, (len(movers), 3))
+        whole = np.zeros(3)
+    else:
+        n = rng.integers(-K, K + 1, (nf, na, 3)).astype(np.float64)
+        whole = rng.uniform(-1, 1, 3) * case["mag"] if rng.random() < 0.5 else np.zeros(3)
+    xb = (x0 + np.einsum("fai,fij->faj", n, B) + whole).astype(np.float32)
+    tb = md.Trajectory(xb, t0.topology, unitcell_lengths=ta.unitcell_lengths.copy(), unitcell_angles=ta.unitcell_angles.copy())
+    tau = np.array([tau_of(ta.xyz[f], xb[f]) + 16 * EPS * np.linalg.norm(B[f], axis=1).max() for f in range(nf)])
+    T1 = tau[:, None]
+    for k_, v_ in (("cell", case["cell"]), ("wide.per_frame_cells", case["pf"]), ("wide.frames", nf), ("lattice_shift_cells", K), ("lattice_shift_pattern", pattern),
+                   ("whole_translation", bool(np.any(whole))), ("wide.index_container", case["idx"]),
+                   ("wide.kernel", "ortho" if orth.all() else ("mixed" if orth.any() else "triclinic"))):
+        ctx.observe(k_, v_)
+    st = case["idx"]
+    pairs, trip, quad = _indices(t0, rng)
+    tag = "lattice-multi"
+    raw = x0[:, pairs[:, 1]] - x0[:, pairs[:, 0]]
+    dmin = geom.min_image_batch(raw, B)[1]
+    indom = dmin < (w / 2 - 4 * tau)[:, None]
+    dom = np.where(orth[:, None], True, indom)
+    da, db = md.compute_distances(ta, common.index_arg(pairs, st)), md.compute_distances(tb, common.index_arg(pairs, st))
+    ok = (np.abs(da - db) <= 4 * T1) | ~dom
+    if not ok.all():
+        f, j = np.argwhere(~ok)[0]
+        ctx.violation("latticem.distances", f"{tag}:compute_distances", f"minimum-image distance {da[f, j]:.6g} vs {db[f, j]:.6g} after lattice shifts (frame {f}, K={K}, cells {case['cell']}/{case['pf']})")
+    else:
+        ctx.ok("latticem.distances", int(dom.sum()) or 1)
+    if (~dom).any():
+        ctx.skip("latticem.distances", "skewed cell and d_min >= w_min/2", int((~dom).sum()))
+    va, vb = md.compute_displacements(ta, common.index_arg(pairs, st)).astype(np.float64), md.compute_displacements(tb, common.index_arg(pairs, st)).astype(np.float64)
+    resid = np.linalg.norm(va - vb, axis=-1)
+    okv = (resid <= 8 * T1) | ~indom
+    if not okv.all():
+        f, j = np.argwhere(~okv)[0]
+        ctx.violation("latticem.displacements", f"{tag}:compute_displacements", f"minimum-image displacement of frame {f} changes by {resid[f, j]:.4g} after lattice shifts")
+    else:
+        ctx.ok("latticem.displacements", int(indom.sum()) or 1)
+
+    def mi(i, j):
+        return geom.min_image_batch(x0[:, j] - x0[:, i], B)
+    u, lu = mi(trip[:, 1], trip[:, 0])
+    v, lv = mi(trip[:, 1], trip[:, 2])
+    ang = geom.angle_vec(u, v)
+    lim = (w / 2 - 4 * tau)[:, None]
+    good = (np.minimum(lu, lv) > 1e-3) & (np.maximum(lu, lv) < lim) & (ang > 1e-2) & (ang < np.pi - 1e-2)
+    aa, ab = md.compute_angles(ta, common.index_arg(trip, st)), md.compute_angles(tb, common.index_arg(trip, st))
+    _cmp(ctx, "latticem.angles", f"{tag}:compute_angles", aa, ab, 8 * T1 / np.minimum(lu, lv) + 4 * EPS / np.maximum(np.sin(ang), 1e-3) + 1e-6,
+         "periodic angles before/after lattice shifts", mask=good)
+    b1, l1 = mi(quad[:, 0], quad[:, 1])
+    b2, l2 = mi(quad[:, 1], quad[:, 2])
+    b3, l3 = mi(quad[:, 2], quad[:, 3])
+    sn = np.minimum(np.sin(geom.angle_vec(-b1, b2)), np.sin(geom.angle_vec(-b2, b3)))
+    lq = np.minimum.reduce([l1, l2, l3])
+    goodq = (lq > 1e-3) & (np.maximum.reduce([l1, l2, l3]) < lim) & (sn > 0.05)
+    qa, qb = md.compute_dihedrals(ta, common.index_arg(quad, st)), md.compute_dihedrals(tb, common.index_arg(quad, st))
+    okq = (circ(qa, qb) <= 16 * T1 / (lq * np.maximum(sn, 1e-9)) + 1e-5) | ~goodq
+    if not okq.all():
+        f, j = np.argwhere(~okq)[0]
+        ctx.violation("latticem.dihedrals", f"{tag}:compute_dihedrals", f"periodic dihedral {qa[f, j]:.6f} vs {qb[f, j]:.6f} after lattice shifts (frame {f})")
+    else:
+        ctx.ok("latticem.dihedrals", int(goodq.sum()) or 1)
+    # neighbours of every frame / neighbour list of every frame
+    cutoff = float(rng.uniform(0.4, 0.95) * min(0.6, w.min() / 2 - 0.01))
+    rest = np.setdiff1d(np.arange(na), sub)[::-1].copy()
+    dall = geom.min_image_batch(x0[:, :, None, :].reshape(nf, -1, 1, 3)[:, :, 0, :].repeat(len(sub), axis=1) - np.tile(x0[:, sub], (1, na, 1)), B)[1].reshape(nf, na, len(sub))
+    for hay, hname in ((None, "all atoms"), (rest, "explicit descending haystack without the query atoms")):
+        if hay is not None and not len(hay):
+            continue
+        na_ = md.compute_neighbors(ta, cutoff, common.index_arg(sub, st), haystack_indices=None if hay is None else common.index_arg(hay, st))
+        nb_ = md.compute_neighbors(tb, cutoff, common.index_arg(sub, st), haystack_indices=None if hay is None else common.index_arg(hay, st))
+        for f in range(nf):
+            amb = {int(h) for h in range(na) if np.any(np.abs(dall[f, h] - cutoff) <= 4 * tau[f] + 1e-5)}
+            diff = (set(na_[f].tolist()) ^ set(nb_[f].tolist())) - amb
+            if diff:
+                ctx.violation("latticem.neighbors", f"{tag}:compute_neighbors", f"periodic neighbour set ({hname}) of frame {f} changes after lattice shifts for atoms {sorted(diff)[:6]} (cutoff {cutoff:.3f}, K={K}, moved: {pattern})")
+            else:
+                ctx.ok("latticem.neighbors", na - len(amb))
+    for f in range(nf):
+        try:
+            la, lb = md.compute_neighborlist(ta, cutoff, frame=f), md.compute_neighborlist(tb, cutoff, frame=f)
+        except Exception as e:
+            ctx.skip("latticem.neighborlist", f"compute_neighborlist raised {type(e).__name__}")
+            break
+        dfull = geom.min_image(x0[f][:, None, :] - x0[f][None, :, :], B[f])[1]
+        ambp = np.abs(dfull - cutoff) <= 4 * tau[f] + 1e-5
+        bad = [(i, j, float(dfull[i, j])) for (i, j) in _pairsets(la) ^ _pairsets(lb) if not ambp[i, j]]
+        if bad:
+            ctx.violation("latticem.neighborlist", f"{tag}:compute_neighborlist(frame=f)", f"neighbour list of frame {f} changes after lattice shifts: {len(bad)} memberships, e.g. (i,j,d) {bad[:3]} (cutoff {cutoff:.3f}, K={K}, cell {case['cell']}/{case['pf']})")
+        else:
+            ctx.ok("latticem.neighborlist", na)
+    # closest contact between two groups, frame by frame (the distance; the pair may tie)
+    perm = rng.permutation(na)
+    g1, g2 = perm[: max(1, na // 3)], perm[max(1, na // 3): max(2, 2 * na // 3)]
+    for f in range(nf):
+        ca_, cb_ = md.find_closest_contact(ta, common.index_arg(g1, st), common.index_arg(g2, st), frame=f), md.find_closest_contact(tb, common.index_arg(g1, st), common.index_arg(g2, st), frame=f)
+        if not orth[f] and not min(ca_[2], cb_[2]) < w[f] / 2 - 4 * tau[f]:
+            ctx.skip("latticem.closest_contact", "skewed cell and closest distance >= w_min/2")
+            continue
+        ctx.check(abs(ca_[2] - cb_[2]) <= 4 * tau[f], "latticem.closest_contact", f"{tag}:find_closest_contact", f"closest-contact distance of frame {f}: {ca_[2]:.6g} vs {cb_[2]:.6g} after lattice shifts")
+    if case["pf"] == "const" and nf > 1:
+        times = rng.integers(0, nf, (6, 2))
+        rawt = x0[times[:, 1]][:, pairs[:, 1]] - x0[times[:, 0]][:, pairs[:, 0]]
+        dmt = geom.min_image_batch(rawt, B[times[:, 0]])[1]
+        domt = np.ones_like(dmt, bool) if orth.all() else dmt < (w.min() / 2 - 8 * tau.max())
+        xa, xb_ = md.compute_distances_t(ta, pairs, times), md.compute_distances_t(tb, pairs, times)
+        okt = (np.abs(xa - xb_) <= 8 * tau.max()) | ~domt
+        if not okt.all():
+            k, j = np.argwhere(~okt)[0]
+            ctx.violation("latticem.distances_t", f"{tag}:compute_distances_t", f"time-pair distance {xa[k, j]:.6g} vs {xb_[k, j]:.6g} after lattice shifts (times {times[k].tolist()})")
+        else:
+            ctx.ok("latticem.distances_t", int(domt.sum()) or 1)
+    if case["source"] == "protein":
+        nres = t0.topology.n_residues
+        rp = np.array([p for p in rng.integers(0, nres, (80, 2)) if abs(p[0] - p[1]) >= 3][:40])
+        for scheme in ("ca", "closest-heavy"):
+            c0 = md.compute_contacts(ta, rp, scheme=scheme, periodic=True)[0]
+            c1 = md.compute_contacts(tb, rp, scheme=scheme, periodic=True)[0]
+            _cmp(ctx, "latticem.contacts", f"{tag}:compute_contacts({scheme},periodic)", c0, c1, 4 * T1, f"periodic {scheme} contacts")
+        _hbonds_multi(ctx, ta, tb, x0, tau, "latticem", B, tag)
+
+
+_run_case_original = run_case
+
+
+def run_case(case, ctx):  # noqa: F811
+    if case.get("w"):
+        rng = common.rng_for("C09w", case["seed"])
+        ctx.observe("source", case["source"])
+        ctx.observe("kind", case["kind"])
+        return rigid_multi(case, ctx, rng) if case["kind"] == "rigid_multi" else lattice_multi(case, ctx, rng)
+    return _run_case_original(case, ctx)
